@@ -14,10 +14,11 @@ func init() {
 			{PkgPath: machinePkg, Func: "verifC15Get64"},
 			{PkgPath: machinePkg, Func: "verifC15Put32"},
 			{PkgPath: machinePkg, Func: "verifC15Get32"},
+			{PkgPath: machinePkg, Func: "verifC15Windows"},
 		},
 		Covers: []string{"c15/put64/ok", "c15/put64/short", "c15/get64/ok", "c15/get64/short",
-			"c15/put32/ok", "c15/put32/short", "c15/get32/ok", "c15/get32/short"},
-		Bounds: "buffer length 0..25 (quick) / 0..48 (thorough), forked; all 2^64 / 2^32 values and all buffer contents symbolic; " +
+			"c15/put32/ok", "c15/put32/short", "c15/get32/ok", "c15/get32/short", "c15/window"},
+		Bounds: "buffer length 0..25 (quick) / 0..48 (thorough), forked; all 2^64 / 2^32 values and all buffer contents symbolic; windows big[off:off+n] of a 24-byte allocation with off ≤ 8, n ≤ 12 (spare capacity behind the window, data in front of it); " +
 			"outside: longer buffers (no length-dependent code beyond the bounds check of encoding/binary)",
 		Assumptions: []string{
 			"go/ssa (x/tools v0.29.0) is the semantics of Go; encoding/binary is executed from its real SSA",
